@@ -412,23 +412,36 @@ def rule_limits(ctx, repo, it):
     check_rule(r, 'sig-count', ms, repo, ['sigs_count < 0 or sigs_count > keys_count'], 'sigs_count', 'signature count outside 0..keys fails', noreturn=nr)
     g = check_rule(r, 'multisig-op-count', ms, repo, ['nOpCount[0] > 201'], 'nOpCount', 'key count is charged against the 201-operation limit', noreturn=nr)
     multisig_order_check(r, repo, ms)
-    # NULLDUMMY
-    found = None
+    # NULLDUMMY: the raising guards whose condition (with the enclosing ifs) names the flag; what they ask of the dummy
+    def cond_of(n):
+        parts = [n.test]
+        cur, child = getattr(n, '_parent', None), n
+        while cur is not None and not isinstance(cur, (ast.FunctionDef, ast.AsyncFunctionDef)):
+            if isinstance(cur, ast.If) and any(child is x for x in cur.body):
+                parts.append(cur.test)
+            child, cur = cur, getattr(cur, '_parent', None)
+        out = []
+        for p_ in parts:
+            out.extend(p_.values if isinstance(p_, ast.BoolOp) and isinstance(p_.op, ast.And) else [p_])
+        return out
+    cands = []
     for n in walk_no_nested(ms.node):
-        if isinstance(n, ast.If) and 'SCRIPT_VERIFY_NULLDUMMY in flags' in norm(n.test):
-            found = n
-    if found is None:
+        if isinstance(n, ast.If) and flow.always_raises(n.body, nr):
+            cj = cond_of(n)
+            if any('SCRIPT_VERIFY_NULLDUMMY in flags' == norm(c_) for c_ in cj):
+                cands.append((n, [norm(c_) for c_ in cj if 'SCRIPT_VERIFY_NULLDUMMY' not in norm(c_) and norm(c_) not in ('len(stack)', 'stack', 'len(stack) > 0', 'len(stack) != 0', 'len(stack) >= 1')]))
+    mentions = [n for n in walk_no_nested(ms.node) if isinstance(n, ast.If) and 'SCRIPT_VERIFY_NULLDUMMY' in norm(n.test)]
+    good = {"stack[-1] != b''", "len(stack[-1]) != 0", "len(stack[-1]) > 0", "stack[-1]", "len(stack[-1])", "b'' != stack[-1]", "len(stack[-1]) >= 1", "not stack[-1] == b''"}
+    if not mentions:
         r.violated('nulldummy', ms.site, 'no NULLDUMMY check in _CheckMultiSig')
+    elif len(cands) == 1 and len(cands[0][1]) == 1 and cands[0][1][0] in good:
+        r.ok('nulldummy', common.site_of(ms, cands[0][0]), 'dummy must be the empty vector: `%s`' % cands[0][1][0])
+    elif len(cands) == 1 and len(cands[0][1]) == 1 and re.match(r"^(stack\[-1\] (!=|==) b'.*'|len\(stack\[-1\]\) (!=|==|>|<|>=|<=) \d+|not stack\[-1\]|stack\[-[02-9]\].*|(not )?_CastToBool\(stack\[-1\]\))$", cands[0][1][0]):
+        r.violated('nulldummy', common.site_of(ms, cands[0][0]), 'NULLDUMMY requires the dummy element to be the empty byte vector; the test is `%s`' % cands[0][1][0])
+    elif not cands and all(not any(isinstance(x, (ast.Raise, ast.Call)) for b_ in m_.body for x in ast.walk(b_)) for m_ in mentions):
+        r.violated('nulldummy', common.site_of(ms, mentions[0]), 'NULLDUMMY branch never fails')
     else:
-        inner = [x for x in ast.walk(found) if isinstance(x, ast.If) and x is not found and flow.always_raises(x.body, nr)]
-        tests = [norm(x.test) for x in inner]
-        good = {"stack[-1] != b''", "len(stack[-1]) != 0", "len(stack[-1]) > 0", "stack[-1]", "len(stack[-1])"}
-        if tests and tests[0] in good:
-            r.ok('nulldummy', common.site_of(ms, found), 'dummy must be the empty vector: `%s`' % tests[0])
-        elif tests:
-            r.violated('nulldummy', common.site_of(ms, inner[0]), 'NULLDUMMY requires the dummy element to be the empty byte vector; the test is `%s`' % tests[0])
-        else:
-            r.violated('nulldummy', common.site_of(ms, found), 'NULLDUMMY branch never fails')
+        r.undecided('nulldummy', common.site_of(ms, mentions[0]), 'what the NULLDUMMY check asks of the dummy element was not recognised: %s' % [c_[1] for c_ in cands])
 
 
 def multisig_order_check(r, repo, ms):
@@ -733,7 +746,22 @@ def rule_verify(ctx, repo, it):
             if ev[0] == 'stmt':
                 out.append(('s', norm(ev[1]), ev[1]))
             else:
-                out.append(('if', norm(ev[1].test), ev[2], ev[1]))
+                t_ = norm(ev[1].test)
+                taken = ev[2]
+                # one spelling per test: emptiness as `len(stack) == 0`, the size test as `len(stack) != 1` (a test written the
+                # other way round is read with the branch flipped)
+                ct = canon_text(t_)
+                for ref_ in ('len(stack) == 0', 'len(stack) != 1'):
+                    if t_ in ('not stack', 'not len(stack)') and ref_ == 'len(stack) == 0':
+                        t_ = ref_
+                        break
+                    if ct == canon_text(ref_):
+                        t_ = ref_
+                        break
+                    if ct == canon_text(ref_, negate=True):
+                        t_, taken = ref_, not taken
+                        break
+                out.append(('if', t_, taken, ev[1]))
         return out
 
     def find(evs, pred, start=0):
@@ -742,6 +770,7 @@ def rule_verify(ctx, repo, it):
                 return k
         return -1
     problems = {}
+    undecided_ = {}
     for p in accept:
         evs = seq(p)
         flag = p.assume.get('SCRIPT_VERIFY_P2SH in flags')
@@ -752,17 +781,28 @@ def rule_verify(ctx, repo, it):
         if k1 < 0 or k2 < 0:
             problems.setdefault('both-evaluated', 'an accepting path does not evaluate scriptSig and then scriptPubKey on the same stack')
             continue
-        e1 = find(evs, lambda e: e[0] == 'if' and e[1] in ('len(stack) == 0', 'not len(stack)', 'not stack') and not e[2], k2)
+        e1 = find(evs, lambda e: e[0] == 'if' and e[1] == 'len(stack) == 0' and not e[2], k2)
         t1 = find(evs, lambda e: e[0] == 'if' and e[1] == 'not _CastToBool(stack[-1])' and not e[2], k2)
         if e1 < 0 or t1 < 0 or e1 > t1:
             problems.setdefault('nonempty-true', 'an accepting path lacks the empty-stack / false-top tests after evaluating scriptPubKey')
         last = max(t1, k2)
         if p2sh:
-            c = find(evs, lambda e: e[0] == 's' and e[1] == 'stackCopy = list(stack)', k1)
-            if not (k1 < c < k2):
-                problems.setdefault('p2sh:copy', 'the P2SH stack copy is not taken between the two evaluations')
+            # the stack kept for the redeem script: the name restored later (`stack = <name>`), bound between the two
+            # evaluations to a shallow copy of the stack
+            rs0 = find(evs, lambda e: e[0] == 's' and re.match(r'^stack = \w+$', e[1]) is not None, k2)
+            keep = evs[rs0][1].split(' = ')[1] if rs0 >= 0 else 'stackCopy'
+            COPIES = ('list(stack)', 'stack[:]', 'stack.copy()', 'copy.copy(stack)', 'list(stack[:])', '[*stack]', 'stack + []', '[] + stack', '[x for x in stack]')
+            binds = [k_ for k_ in range(len(evs)) if evs[k_][0] == 's' and evs[k_][1].startswith(keep + ' = ')]
+            between = [k_ for k_ in binds if k1 < k_ < k2]
+            if len(between) == 1 and evs[between[0]][1][len(keep) + 3:] in COPIES:
+                pass
+            elif not between or (len(between) == 1 and evs[between[0]][1][len(keep) + 3:] == 'stack'):
+                problems.setdefault('p2sh:copy', 'the P2SH stack copy is not taken between the two evaluations' if not between else
+                                    'the stack kept for the redeem script is the evaluation stack itself (`%s`), not a copy: evaluating scriptPubKey changes it' % evs[between[0]][1])
+            else:
+                undecided_['p2sh:copy'] = 'the stack kept for the redeem script is bound by `%s`' % '; '.join(evs[k_][1] for k_ in between)[:100]
             po = find(evs, lambda e: e[0] == 'if' and e[1] == 'not %s.is_push_only()' % sig and not e[2], k2)
-            rs = find(evs, lambda e: e[0] == 's' and e[1] == 'stack = stackCopy', k2)
+            rs = find(evs, lambda e: e[0] == 's' and e[1] == 'stack = ' + keep, k2)
             pp = find(evs, lambda e: e[0] == 's' and re.match(r'^\w+ = CScript\(stack\.pop\(\)\)$', e[1]) is not None, rs if rs >= 0 else k2)
             if po < 0:
                 problems.setdefault('p2sh:push-only', 'the P2SH arm does not require a push-only scriptSig')
@@ -771,7 +811,7 @@ def rule_verify(ctx, repo, it):
             else:
                 var = evs[pp][1].split(' = ')[0]
                 k3 = find(evs, lambda e: e[0] == 's' and e[1].startswith('EvalScript(stack, %s, ' % var), pp)
-                e3 = find(evs, lambda e: e[0] == 'if' and e[1] in ('not len(stack)', 'len(stack) == 0', 'not stack') and not e[2], k3) if k3 >= 0 else -1
+                e3 = find(evs, lambda e: e[0] == 'if' and e[1] == 'len(stack) == 0' and not e[2], k3) if k3 >= 0 else -1
                 t3 = find(evs, lambda e: e[0] == 'if' and e[1] == 'not _CastToBool(stack[-1])' and not e[2], k3) if k3 >= 0 else -1
                 if k3 < 0 or e3 < 0 or t3 < 0:
                     problems.setdefault('p2sh:inner', 'the P2SH arm does not evaluate the redeem script and test its result for non-empty/true')
@@ -786,6 +826,8 @@ def rule_verify(ctx, repo, it):
     for k in ('both-evaluated', 'nonempty-true', 'p2sh:copy', 'p2sh:push-only', 'p2sh:restore', 'p2sh:inner', 'p2sh:guard', 'cleanstack'):
         if k in problems:
             r.violated(k, fi.site, 'VerifyScript: ' + problems[k])
+        elif k in undecided_:
+            r.undecided(k, fi.site, 'VerifyScript: ' + undecided_[k])
         else:
             r.ok(k, fi.site, 'holds on all %d accepting paths' % len(accept))
     # rejections are VerifyScriptError
